@@ -26,17 +26,17 @@ type PkgInfo struct {
 }
 
 type Engine struct {
-	RepoDir   string
-	VerifDir  string
-	fset      *token.FileSet
-	prog      *ssa.Program
-	pkgs      map[string]*PkgInfo // by import path
-	byShort   map[string]*PkgInfo
-	stdlib    *ContractFile // trusted contracts for library functions
-	stdPkg    *PkgInfo
-	prelude   *ContractFile
-	Warnings  []string
-	allPkgs   map[string]*packages.Package
+	RepoDir  string
+	VerifDir string
+	fset     *token.FileSet
+	prog     *ssa.Program
+	pkgs     map[string]*PkgInfo // by import path
+	byShort  map[string]*PkgInfo
+	stdlib   *ContractFile // trusted contracts for library functions
+	stdPkg   *PkgInfo
+	prelude  *ContractFile
+	Warnings []string
+	allPkgs  map[string]*packages.Package
 }
 
 const ContractFileName = "zz_verif_contracts.go"
@@ -354,4 +354,26 @@ func (e *Engine) Packages() []*PkgInfo {
 		out = append(out, e.pkgs[p])
 	}
 	return out
+}
+
+// funcByKey resolves "pkgname.Func" (package-level functions only) in any loaded package.
+func (e *Engine) funcByKey(key string) *ssa.Function {
+	i := strings.Index(key, ".")
+	if i < 0 {
+		return nil
+	}
+	var paths []string
+	for p := range e.pkgs {
+		paths = append(paths, p)
+	}
+	sort.Strings(paths)
+	for _, p := range paths {
+		pi := e.pkgs[p]
+		if pi.Short == key[:i] && pi.SSA != nil {
+			if fn := pi.SSA.Func(key[i+1:]); fn != nil {
+				return fn
+			}
+		}
+	}
+	return nil
 }
